@@ -345,12 +345,19 @@ pub enum Isolated {
 /// The limit can only turn "seems stuck" into the verdict `hang` after the case has been
 /// examined alone, so machine load cannot raise an alarm.
 pub fn run_case_isolated<W: World>(world: &Arc<W>, case: &W::Case, limit_s: u64) -> Isolated {
+    run_cases_isolated(world, std::slice::from_ref(case), limit_s)
+}
+
+/// Execute a sequence of cases one after the other in ONE fresh process (as a worker would) and
+/// report on the last one. Used when a violation depends on state that earlier runs left behind in
+/// the process (a process-wide static behind an API that is documented as thread-local, say).
+pub fn run_cases_isolated<W: World>(world: &Arc<W>, cases: &[W::Case], limit_s: u64) -> Isolated {
     let exe = std::env::current_exe().unwrap_or_else(|_| harness_error("cannot find own executable"));
     let dir = format!("{}/work/iso-{}-{}", std::env::var("VERIF_DIR").unwrap_or_else(|_| "/verif".into()), std::process::id(), BATCH_NO.fetch_add(1, Ordering::SeqCst));
     let _ = std::fs::create_dir_all(&dir);
     let f = format!("{dir}/case.json");
     let o = format!("{dir}/out.json");
-    if std::fs::write(&f, serde_json::to_string(case).unwrap_or_default()).is_err() {
+    if std::fs::write(&f, serde_json::to_string(cases).unwrap_or_default()).is_err() {
         harness_error("cannot write isolated case file");
     }
     let mut ch = std::process::Command::new(&exe)
@@ -586,6 +593,12 @@ pub fn run_batch<W: World>(world: &Arc<W>, verif_seed: u64, tier: Tier, runs: u6
 /// Greedy delta debugging driven by the world's own candidate generator: accept a candidate
 /// iff the same violation kind reproduces.
 pub fn minimise<W: World>(world: &Arc<W>, case: &W::Case, v: &Violation, known: &Arc<Vec<KnownFinding>>) -> (W::Case, Violation, usize) {
+    minimise_opt(world, case, v, known, false)
+}
+
+/// `force_isolated`: execute every candidate in a fresh process (needed when the code under test
+/// keeps process-wide state, so that candidates executed in one process would influence each other)
+pub fn minimise_opt<W: World>(world: &Arc<W>, case: &W::Case, v: &Violation, known: &Arc<Vec<KnownFinding>>, force_isolated: bool) -> (W::Case, Violation, usize) {
     let mut cur = case.clone();
     let mut cur_v = v.clone();
     let mut tried = 0usize;
@@ -597,7 +610,7 @@ pub fn minimise<W: World>(world: &Arc<W>, case: &W::Case, v: &Violation, known: 
                 break 'outer;
             }
             tried += 1;
-            let needs_isolation = world.crash_isolated() && (cur_v.kind == "process_death" || cur_v.kind == "hang");
+            let needs_isolation = force_isolated || world.crash_isolated() && (cur_v.kind == "process_death" || cur_v.kind == "hang");
             let violation = if needs_isolation {
                 // every candidate costs a process (and, for hangs, a time-out): keep the search short
                 if tried > (if cur_v.kind == "hang" { 24 } else { 250 }) {
@@ -630,6 +643,10 @@ pub struct ReplayFile {
     pub world: String,
     pub verif_seed: u64,
     pub run: u64,
+    /// cases that the same process executed before `case` and that the violation depends on
+    /// (empty unless state leaked from one run into the next)
+    #[serde(default)]
+    pub preceding: Vec<Value>,
     pub case: Value,
     pub violation: Violation,
     pub minimised_from: Value,
@@ -637,6 +654,11 @@ pub struct ReplayFile {
 }
 
 pub fn write_replay<W: World>(verif_dir: &str, world: &Arc<W>, verif_seed: u64, run: u64, case: &W::Case, v: &Violation, original: &W::Case, tried: usize) -> String {
+    write_replay_with(verif_dir, world, verif_seed, run, &[], case, v, original, tried)
+}
+
+#[allow(clippy::too_many_arguments)]
+pub fn write_replay_with<W: World>(verif_dir: &str, world: &Arc<W>, verif_seed: u64, run: u64, preceding: &[W::Case], case: &W::Case, v: &Violation, original: &W::Case, tried: usize) -> String {
     // VERIF_OUT_DIR redirects replays and evidence (used for sensitivity experiments on scratch copies)
     let dir = format!("{}/replays", std::env::var("VERIF_OUT_DIR").unwrap_or_else(|_| verif_dir.to_string()));
     let _ = std::fs::create_dir_all(&dir);
@@ -646,6 +668,7 @@ pub fn write_replay<W: World>(verif_dir: &str, world: &Arc<W>, verif_seed: u64, 
         world: world.name().to_string(),
         verif_seed,
         run,
+        preceding: preceding.iter().map(|c| serde_json::to_value(c).unwrap_or(Value::Null)).collect(),
         case: serde_json::to_value(case).unwrap_or(Value::Null),
         violation: v.clone(),
         minimised_from: json!({"case_bytes": serde_json::to_string(original).map(|s| s.len()).unwrap_or(0), "minimised_bytes": serde_json::to_string(case).map(|s| s.len()).unwrap_or(0), "candidates_tried": tried}),
@@ -664,6 +687,11 @@ pub fn replay<W: World>(world: &Arc<W>, rf: &ReplayFile, known: &Arc<Vec<KnownFi
         Ok(c) => c,
         Err(e) => harness_error(&format!("replay file does not hold a {} case: {e}", world.name())),
     };
+    for pc in &rf.preceding {
+        if let Ok(c) = serde_json::from_value::<W::Case>(pc.clone()) {
+            let _ = run_case(world, &c, known, false);
+        }
+    }
     if world.crash_isolated() && std::env::var("VERIF_IN_CHILD").is_err() {
         return match run_case_isolated(world, &case, 150) {
             Isolated::Finished(v) => v,
